@@ -31,7 +31,7 @@ ASSUMPTIONS = [
     "held means: held on the executions listed, not verified for all histories",
 ]
 MINIMA = {"quick": {"ops": 8000, "sector_ops": 300, "cache_overflow_histories": 20, "contract_evaluations": 8000},
-          "thorough": {"ops": 80000}}
+          "thorough": {"ops": 800000}}
 BUFFERS = [512, 4096, 8192, 65536, 1 << 20, 4 << 20]
 MECH = "stream.history"
 LAYERED = ["vhdx-diff", "vmdk-delta", "hdd-snapshots", "qcow2-chain", "vdi-parent"]
@@ -39,7 +39,7 @@ LAYERED = ["vhdx-diff", "vmdk-delta", "hdd-snapshots", "qcow2-chain", "vdi-paren
 
 def plan(tier: str, seed: int) -> list[dict]:
     cases = []
-    reps = 4 if tier == "quick" else 16
+    reps = 4 if tier == "quick" else 60
     for buf in BUFFERS:
         for kind in streams.KINDS + LAYERED:
             if kind == "vhdx-4k" and buf % 4096:
